@@ -28,6 +28,11 @@ AREAS = {
     'Z3': 'csep/core/catalogs.py and csep/core/forecasts.py - prefer changes of control flow: guard clauses, merged / split branches, loops versus comprehensions, try/except restructured without changing what is protected',
     'Z4': 'csep/core/poisson_evaluations.py, csep/core/binomial_evaluations.py, csep/core/brier_evaluations.py, csep/core/catalog_evaluations.py - prefer sharing code between the three families of tests through new private helpers in the same module',
     'Z5': 'csep/utils/readers.py, csep/models.py, csep/core/repositories.py and csep/__init__.py - prefer table-driven rewrites, helper extraction and modern idioms (f-strings, pathlib-free), keeping every exception and message',
+    'AA': 'csep/core/regions.py and csep/utils/calc.py - prefer exactly equivalent rewrites between explicit loops and vectorised numpy forms (in both directions), named intermediate variables for long expressions, reordering of independent statements, and replacing index arithmetic by equivalent slicing',
+    'AB': 'csep/core/catalogs.py - prefer class-level restructuring: private helper methods shared by spatial_counts / spatial_event_probability / magnitude_counts / spatial_magnitude_counts, static methods, properties, splitting long methods (filter, write_ascii, from_dict, to_dataframe, load_ascii_catalogs) into steps',
+    'AC': 'csep/core/forecasts.py, csep/core/repositories.py and csep/__init__.py - prefer equivalent rewrites of the state handling: the list / generator duality of CatalogForecast.__next__, early returns versus else branches, helper methods for the end-of-pass bookkeeping, GriddedDataSet properties, the loader dispatch tables',
+    'AD': 'csep/core/poisson_evaluations.py, csep/core/binomial_evaluations.py, csep/core/brier_evaluations.py and csep/core/catalog_evaluations.py - prefer building the EvaluationResult through a helper or keyword dictionary, loops versus comprehensions, hoisting loop-invariant computations where the floating-point result is bit-identical, and unifying the three _simulate_catalog functions behind private helpers without changing the random stream',
+    'AE': 'csep/utils/readers.py, csep/utils/time_utils.py, csep/utils/stats.py and csep/models.py - prefer equivalent string handling (split / partition / slices / f-strings), lookup tables instead of if-chains, enumerations replaced by module constants, context managers, and equivalent datetime arithmetic',
     'J': 'csep/core/poisson_evaluations.py, csep/core/binomial_evaluations.py, csep/core/brier_evaluations.py, csep/core/catalog_evaluations.py and csep/models.py (test kernels, simulation loops, result construction)',
 }
 print(f'''You are working in a scratch git worktree of the pyCSEP repository at {wt} (a detached checkout). Work ONLY inside {wt}: do not touch /repo, /verif or any other directory, do NOT use `git stash`, never commit anything.
